@@ -52,12 +52,14 @@ def impl_replay(job):
             nr = len(rec["prog"]["rx"])
             draws = draws_for(rec["steps"])
             brandom.py_verif_script(draws + [0.5] * 4)
-            if job["via"] == 2:
+            if job["via"] == 2 and not rec.get("preload"):
                 r = py_simulate_model(tp, Model=m, stochastic=True, delay=True, safe=rec["safe"], return_dataframe=False)
             else:
                 itf = SafeModelCSimInterface(m) if rec["safe"] else ModelCSimInterface(m)
                 itf.py_set_dt(dt)
                 q = ArrayDelayQueue.setup_queue(nr, nt, dt)
+                for k, rr, c in rec.get("preload", []):          # a queue that already holds deliveries (continued run)
+                    q.py_add_reaction(k * dt, rr - 1, float(c))
                 r = DelaySSASimulator().py_delay_simulate(itf, q, tp)
             used, _, under = brandom.py_verif_script_status()
             brandom.py_verif_script(None)
@@ -178,7 +180,7 @@ def run(tier):
            "traces_validated_against_impl": ok + accepted,
            "samples": [{"prog": s.get("prog"), "dt": s.get("dt"), "x0": s.get("x0"), "steps": s.get("steps", [])[:8], "rows": s.get("rows"), "pending": s.get("pending")}],
            "behaviours_replayed": len(recs), "behaviours_exact": ok, "fire_events": nfire, "fires_by_delay_family": fam,
-           "fires_queued": nq, "gamma_rejected_proposals": nrej, "seeded_traces_accepted": accepted, "seeded_runs_skipped_unbounded": skipped,
+           "fires_queued": nq, "gamma_rejected_proposals": nrej, "behaviours_with_preloaded_queue": sum(1 for r in recs if r.get("preload")), "seeded_traces_accepted": accepted, "seeded_runs_skipped_unbounded": skipped,
            "checker_cmd": g1.cmd + " ; tlc TraceSsa"}
     common.write_evidence(PROP, tier, cov, time.time() - t0, len(v.alarms) + sum(v.known_hit.values()),
                           assumptions=["A-Transforms: Box-Muller yields Normal(mean, std) and Marsaglia-Tsang yields Gamma(k, theta) (cited theorems); the code is bound to the transforms exactly",
